@@ -185,9 +185,13 @@ type ProgCfg struct {
 	Cancun      bool // allow TLOAD/TSTORE/MCOPY heavy programs
 	Contracts   int
 	MaxSnips    int
-	NoArtelaPre bool   // never address 0x64-0x66
-	Focus       []byte // opcodes to favour in micro snippets
-	FocusPct    int
+	NoArtelaPre bool // never address 0x64-0x66
+	// C12 (metamorphic pairs): journal sites, and nothing that would let the
+	// program observe gas, its own code bytes or jump into padding
+	Sites    bool
+	Hermetic bool
+	Focus    []byte // opcodes to favour in micro snippets
+	FocusPct int
 }
 
 type progGen struct {
@@ -198,6 +202,8 @@ type progGen struct {
 	addr []common.Address
 	pre  []uint64 // precompile numbers usable
 	n    int      // label counter for draws
+	// Sites: journal sites per generated contract (cfg.Sites)
+	Sites map[common.Address][]JSite
 }
 
 func (g *progGen) lbl(s string) string { return s }
@@ -213,6 +219,9 @@ func newProgGen(t *rapid.T, cfg ProgCfg) *progGen {
 			continue
 		}
 		if op >= RSVJNAL && op <= VRJNAL {
+			continue
+		}
+		if cfg.Hermetic && (op == GAS || op == CODECOPY || op == EXTCODECOPY || op == EXTCODEHASH || op == EXTCODESIZE || op == PC || op == CODESIZE) {
 			continue
 		}
 		g.ops = append(g.ops, op)
@@ -399,6 +408,15 @@ type codeGen struct {
 	h     int // tracked stack height (assuming success)
 	datas []dataSeg
 	depth int
+	sites []JSite
+}
+
+// JSite is a journal instruction emitted as [JOP, JUMPDEST x (k-1)]: k bytes that
+// the metamorphic variants replace by k POPs (same length, same stack effect).
+type JSite struct {
+	Pos int  `json:"pos"`
+	K   int  `json:"k"`
+	Op  byte `json:"op"`
 }
 
 type dataSeg struct {
@@ -522,6 +540,8 @@ func (c *codeGen) callSnippet() {
 	}
 	c.a.Push(g.genAddr("callto"))
 	switch r := uniform(t, 0, 11, "callgas"); {
+	case g.cfg.Hermetic:
+		c.a.Push(uint64(pickInt(t, "callgash", 30000, 50000, 15000)))
 	case r < 3:
 		c.a.Op(GAS)
 	case r < 4:
@@ -712,11 +732,13 @@ func (c *codeGen) snippet(allowLoop bool) {
 		c.condTerminator()
 	case r < 92 && allowLoop:
 		c.loopSnippet()
-	case r < 94:
+	case r < 94 && !c.g.cfg.Hermetic:
 		c.badJump()
-	case r < 96:
+	case r < 96 && !c.g.cfg.Hermetic:
 		// raw random bytes inline
 		c.a.Raw(rapid.SliceOfN(rapid.Byte(), 1, 6).Draw(t, "rawbytes"))
+	case c.g.cfg.Sites && c.depth == 0:
+		c.journalBlock()
 	default:
 		c.micro()
 	}
@@ -729,6 +751,11 @@ func (c *codeGen) snippet(allowLoop bool) {
 
 // genCode generates one program.
 func (g *progGen) genCode(depth, snippets int) []byte {
+	code, _ := g.genCodeSites(depth, snippets)
+	return code
+}
+
+func (g *progGen) genCodeSites(depth, snippets int) ([]byte, []JSite) {
 	c := &codeGen{g: g, a: NewAsm(), depth: depth}
 	for i := 0; i < snippets; i++ {
 		c.snippet(depth < 2)
@@ -737,14 +764,14 @@ func (g *progGen) genCode(depth, snippets int) []byte {
 	for _, d := range c.datas {
 		c.a.Mark(d.label).Raw(d.data)
 	}
-	if chance(g.t, 10, "tail") {
+	if !g.cfg.Hermetic && chance(g.t, 10, "tail") {
 		c.a.Raw(rapid.SliceOfN(rapid.Byte(), 1, 20).Draw(g.t, "tailbytes"))
 	}
 	code := c.a.Bytes()
 	if g.cfg.Standard {
 		code = sanitizeStandard(code)
 	}
-	return code
+	return code, c.sites
 }
 
 // sanitizeStandard rewrites opcode positions holding Artela-only opcodes
@@ -771,6 +798,12 @@ func isNonStandardOpByte(b byte) bool {
 
 // GenProgScenario generates a complete scenario around generated programs.
 func GenProgScenario(t *rapid.T, cfg ProgCfg) *Scenario {
+	sc, _ := GenProgScenarioSites(t, cfg)
+	return sc
+}
+
+// GenProgScenarioSites also returns the journal sites per contract (cfg.Sites).
+func GenProgScenarioSites(t *rapid.T, cfg ProgCfg) (*Scenario, map[common.Address][]JSite) {
 	if cfg.Fork == "" {
 		maxFork := 11
 		cfg.Fork = ForkNames[uniform(t, 0, maxFork, "fork")]
@@ -812,7 +845,13 @@ func GenProgScenario(t *rapid.T, cfg ProgCfg) *Scenario {
 	g := newProgGen(t, cfg)
 	sc := &Scenario{Fork: cfg.Fork, ExtraEips: cfg.Extra}
 	for i := 0; i < cfg.Contracts; i++ {
-		code := g.genCode(0, rapid.IntRange(1, cfg.MaxSnips).Draw(t, "nsnips"))
+		code, sites := g.genCodeSites(0, rapid.IntRange(1, cfg.MaxSnips).Draw(t, "nsnips"))
+		if g.Sites == nil {
+			g.Sites = map[common.Address][]JSite{}
+		}
+		if len(sites) > 0 {
+			g.Sites[ContractAddrs[i]] = sites
+		}
 		acc := Account{Addr: ContractAddrs[i], Nonce: 1, Code: code}
 		acc.Balance = hexU64(pickU64(t, "cbal", 0, 1, 1000, 1_000_000))
 		if chance(t, 50, "cstore") {
@@ -836,7 +875,7 @@ func GenProgScenario(t *rapid.T, cfg ProgCfg) *Scenario {
 	for i := 0; i < ninv; i++ {
 		sc.Invs = append(sc.Invs, g.genInvocation())
 	}
-	return sc
+	return sc, g.Sites
 }
 
 func (g *progGen) genInvocation() Invocation {
